@@ -180,6 +180,13 @@ func runUpdate(o *hx.Out, ups [][]sh, expectPartition bool) {
 			}
 		}
 	}
+	// the model's client map is an association list (quadratic): very large maps get the spec verdict only
+	for _, u := range ups {
+		if len(u) > 1100 {
+			o.Count("update:too-large-for-model(spec verdict only)")
+			return
+		}
+	}
 	res := fmtShards(fromClient(m))
 	o.Case("update", "- "+strings.Join(parts, ";"), res, strings.Join(parts, ";"))
 }
